@@ -1,27 +1,28 @@
 #!/bin/sh
-# tools/trymutant.sh <patch.diff> [Cnn ...]   apply a seeded defect to /repo, run the quick checks, undo.
+# tools/trymutant.sh <patch.diff> [Cnn ...]   apply a seeded defect to $R, run the quick checks, undo.
 # Prints one line per property: HOLDS / FAILS (with the first violated obligations).
 cd "$(dirname "$0")/.." || exit 2
+R=${MUTREPO:-/repo}
 P="$1"; shift
 [ -f "$P" ] || { echo "no such patch $P" >&2; exit 2; }
-if [ -n "$(git -C /repo status --porcelain --untracked-files=no)" ]; then echo "/repo has uncommitted changes" >&2; exit 2; fi
-if git -C /repo apply --check "$P" 2>/dev/null; then
-	git -C /repo apply "$P"
-elif (cd /repo && patch -p1 --fuzz=3 --dry-run -s < "$P" >/dev/null 2>&1); then
-	(cd /repo && patch -p1 --fuzz=3 -s --no-backup-if-mismatch < "$P")
+if [ -n "$(git -C $R status --porcelain --untracked-files=no)" ]; then echo "$R has uncommitted changes" >&2; exit 2; fi
+if git -C $R apply --check "$P" 2>/dev/null; then
+	git -C $R apply "$P"
+elif (cd $R && patch -p1 --fuzz=3 --dry-run -s < "$P" >/dev/null 2>&1); then
+	(cd $R && patch -p1 --fuzz=3 -s --no-backup-if-mismatch < "$P")
 else
 	echo "PATCH DOES NOT APPLY: $P"; exit 3
 fi
-git -C /repo reset -q 2>/dev/null
+git -C $R reset -q 2>/dev/null
 LIST="$*"
 [ -n "$LIST" ] || LIST="C01 C02 C03 C04 C05 C06 C07 C08 C09 C10 C11 C12 C13 C14 C15 C16 C17 C18 C19 C20"
-mkdir -p /tmp/trymutant_ev
+mkdir -p /tmp/trymutant_ev$$
 for c in $LIST; do
-	out=$(. ./env.sh; bin/sunlint -repo /repo -property $c -tier quick -evidence /tmp/trymutant_ev 2>&1)
+	out=$(. ./env.sh; bin/sunlint -repo $R -property $c -tier quick -evidence /tmp/trymutant_ev$$ 2>&1)
 	if echo "$out" | grep -q "^VIOLATION"; then
 		echo "$c FAILS: $(echo "$out" | grep -E '^(VIOLATED|UNDECIDED)' | cut -c1-260 | head -3 | tr '\n' '|')"
 	fi
 done
-git -C /repo reset -q --hard HEAD; git -C /repo clean -fdq 2>/dev/null
-rm -rf /tmp/trymutant_ev
+git -C $R reset -q --hard HEAD; git -C $R clean -fdq 2>/dev/null
+rm -rf /tmp/trymutant_ev$$
 echo "done $P"
